@@ -88,6 +88,11 @@ def r123_check_game(ctx, chk, rule="C09.1"):
         # the attributes check_game reads are whatever the constructor made of its arguments
         penv = {("v", "players"): players, ("v", "transition_list"): tl, ("v", "rewards"): rewards, ("v", "final_states"): finals,
                 ("v", shared.solver_names(ctx)["flag_param"]): True}
+        for p_, d_ in init.defaults.items():            # further settings of the game (a tolerance, ...) take their defaults
+            if ("v", p_) not in penv:
+                ok_, v_ = ctx.prog.try_const(d_, init.mod)
+                if ok_:
+                    penv[("v", p_)] = v_
         evi = Evaluator(sxi, penv)
         out = evi.run()
         if out[0] == "accept":
